@@ -212,6 +212,14 @@ fn chain(ctx: &mut Ctx, prop: &'static str) -> R {
         crate::reqgen::insert_at(ctx, &mut orig, ("content-length".into(), cl_secret.to_string().into_bytes()));
         framing = Framing::Sized(cl_secret, false);
     }
+    // C15 only: the original request may carry transfer-encoding: chunked itself. The redirect
+    // inherits it, which makes the (body-less) redirected request one that C17 refuses; the
+    // chain then ends after the method and state checks.
+    let te_orig = prop == "C15" && needs && framing == Framing::None && ctx.chance(1, 6);
+    if te_orig {
+        crate::reqgen::insert_at(ctx, &mut orig, ("transfer-encoding".into(), b"chunked".to_vec()));
+        framing = Framing::Chunked(false);
+    }
     let policy = if policy_samehost { RedirectAuthHeaders::SameHost } else { RedirectAuthHeaders::Never };
     let n_hops = if prop == "C15" { ctx.range(1, 2) } else { ctx.range(1, 4) };
     let cfg0 = ReqCfg { method: method.clone(), version, uri: uri0.clone(), orig: orig.clone(), added: vec![], despite: despite0, framing: framing.clone(), expect: false };
@@ -375,6 +383,11 @@ fn chain(ctx: &mut Ctx, prop: &'static str) -> R {
                 }
                 fail!("FOREIGN", "", "method differs from the table (C15's business)");
             }
+        }
+        if te_orig && depth >= 1 {
+            ctx.count("p:redirected_request_invalid_by_inherited_te");
+            ctx.nontrivial = true;
+            break;
         }
         // ================================================================ the exchange at the receiving origin
         let last_hop = depth as usize >= n_hops;
